@@ -818,6 +818,17 @@ func c10Check(r *vcore.Run) vcore.Coverage {
 }
 
 func c10Replay(r *vcore.Run, sub string, raw json.RawMessage) {
+	if sub == "batch" {
+		// the artefact of a concurrent batch is the batch: every schedule within the bound is explored again
+		// (a recorded schedule is tied to the scheduling points of the code it was recorded on)
+		var b c10Batch
+		if json.Unmarshal(raw, &b) == nil {
+			b.Schedule = nil
+			c10RunBatch(r, b, 3)
+			vsync.SetNow(time.Time{})
+		}
+		return
+	}
 	var c c10Case
 	if json.Unmarshal(raw, &c) != nil {
 		return
